@@ -9,6 +9,7 @@ lacking any of the labels.
 -/
 import PromqlVerif.Proofs.Matchers
 import PromqlVerif.Eng
+import PromqlVerif.Proofs.OptSound
 namespace PromqlVerif.C09
 open PromqlVerif
 
@@ -108,5 +109,42 @@ example :
     usableReplacement top sel = true ∧
       matchAll [] (top ++ mergeFilters top sel) [⟨"__name__", "m"⟩, ⟨"a", "b"⟩] = false := by
   decide
+
+/-! ### the optimizers on whole plans -/
+
+theorem mergeSel_times (h : MatcherHeap) (s : VSel) :
+    (mergeSel h s).origOffset = s.origOffset ∧ (mergeSel h s).atTs = s.atTs := by
+  unfold mergeSel
+  split
+  · exact ⟨rfl, rfl⟩
+  · split <;> exact ⟨rfl, rfl⟩
+
+/-- **SortMatchers leaves the value of every plan unchanged**: for every expression (every
+construct of the reference semantics, `timestamp()` with its dependence on the form of its
+argument included), every storage, regex table and step -/
+theorem sort_matchers_plan_sound {V : Type} [Val V] (c : Ctx V) (e : Expr V) (t : Int) :
+    eval c t (optSortMatchers e) = eval c t e := by
+  unfold optSortMatchers
+  apply mapSelectors_sound
+  intro s
+  refine ⟨rfl, rfl, fun ls => ?_⟩
+  show matchAll c.re (sortMatchers s.matchers ++ s.filters.getD []) ls = matchAll c.re (s.matchers ++ s.filters.getD []) ls
+  exact matchAll_perm c.re ((List.mergeSort_perm s.matchers Matcher.le).append_right _) ls
+
+/-- **MergeSelects leaves the value of every plan unchanged**: replacing selectors by a broader
+select of the same metric plus an in-engine filter (whatever the other selectors of the query
+put into the matcher heap) does not change what any selector selects, hence not the value of
+the expression - at every step, for every storage and regex table -/
+theorem merge_selects_plan_sound {V : Type} [Val V] (c : Ctx V) (e : Expr V) (t : Int) :
+    eval c t (optMergeSelects e) = eval c t e := by
+  unfold optMergeSelects
+  apply mapSelectors_sound
+  intro s
+  exact ⟨(mergeSel_times _ s).1, (mergeSel_times _ s).2, fun ls => mergeSel_sound c.re _ s ls⟩
+
+/-- ... and so does their composition, in either order -/
+theorem sort_then_merge_plan_sound {V : Type} [Val V] (c : Ctx V) (e : Expr V) (t : Int) :
+    eval c t (optMergeSelects (optSortMatchers e)) = eval c t e := by
+  rw [merge_selects_plan_sound, sort_matchers_plan_sound]
 
 end PromqlVerif.C09
